@@ -2652,7 +2652,7 @@ class HistorySpec(Spec):
                 [gen.scenario_violation_before_audit(f"vb{k}", k) for k in range(2)] +
                 [gen.scenario_certify_collapse(f"cc{k}", k) for k in range(4)] +
                 [gen.scenario_unmapped_before_needed(f"um{k}", k) for k in range(2)] +
-                [gen.scenario_old_store_version(f"ov{k}x", k) for k in range(2)] +
+                [gen.scenario_old_store_version(f"ov{k}x", k) for k in range(3)] +
                 [gen.scenario_publisher_names_disagree(f"pn{k}", k) for k in range(2)] +
                 [gen.scenario_unpublished_moved_on(f"mo{k}", k) for k in range(2)] +
                 [gen.scenario_trusted_after_foreign_publisher(f"tf{k}", k) for k in range(2)] +
@@ -2739,9 +2739,15 @@ class _C12Hist(HistorySpec):
 class C09(HistorySpec):
     pid = "C09"
     oracle_fn = staticmethod(hist.oracle_c09)
+    compare_user_commands = True
     coq_files = ["Properties/C09.v"]
+
+    def model_modules_paths(self):
+        return ["ShowUpdate", "ShowUser", "ShowCollapse", "ShowGuess", "ShowStoreVersion"]
+
     theorems = ["C09_locked_check_succeeds_after_unlocked_check", "C09_failing_run_writes_nothing", "C09_required_local_audit_kept",
-                "C09_required_imported_audit_kept", "C09_required_wildcard_kept", "C09_required_publisher_kept"]
+                "C09_required_imported_audit_kept", "C09_required_wildcard_kept", "C09_required_publisher_kept",
+                "C09_locked_accepts_the_version_an_unlocked_run_wrote", "C09_older_store_upgraded_only_unlocked"]
     level_text = ("END-TO-END theorem C09_locked_check_succeeds_after_unlocked_check: for every graph, criteria table and loaded store, "
                   "if the model's unlocked cmd_check succeeds and commits s1 then the locked check of s1 has no errors. Proved by edge "
                   "simulation: the update's own searches succeed, every origin on every chosen path is recorded in the required-entry "
@@ -2814,7 +2820,7 @@ class C11(HistorySpec):
     assumptions = C09.assumptions
 
     def model_modules_paths(self):
-        return ["ShowUpdate", "ShowUser", "ShowCollapse"]
+        return ["ShowUpdate", "ShowUser", "ShowCollapse", "ShowGuess", "ShowStoreVersion"]
 
 
 class C13(HistorySpec):
